@@ -188,6 +188,15 @@ func baseScenarios() []scenario {
 		{Name: "pipe-return-lagging-cache", Mode: "pipeline", Steps: 1, Lag: 2, Phases: []phase{{Desired: []resSpec{a, b}}, {Desired: []resSpec{a}}, {Desired: []resSpec{a, b}}}},
 		{Name: "pt-fixed2-lagging-cache", Mode: "pt", Lag: 3, Templates: []map[string]any{ptTemplate("a", "NopA", "1", optPatch), ptTemplate("b", "NopB", "2", nil)},
 			Phases: []phase{{}, {XREdit: map[string]any{"size": int64(7)}}}},
+		// a P&T base that already carries a composition-resource-name annotation of another template
+		// (copy-pasted from a live resource of another Composition): the template's own name counts
+		{Name: "pt-base-with-foreign-name-annotation", Mode: "pt", Templates: []map[string]any{
+			func() map[string]any {
+				t := ptTemplate("a", "NopA", "1", optPatch)
+				t["base"].(map[string]any)["metadata"] = map[string]any{"annotations": map[string]any{annResName: "some-other-template"}, "labels": map[string]any{"copied": "yes"}}
+				return t
+			}(), tb},
+			Phases: []phase{{}, {XREdit: map[string]any{"size": int64(7)}}}},
 		{Name: "pipe-version-flip", Mode: "pipeline", Steps: 1, Phases: []phase{{Desired: []resSpec{a, b}}, {Desired: []resSpec{a2, b}}, {Desired: []resSpec{a, b}}}},
 		{Name: "pt-template-removed", Mode: "pt", Templates: []map[string]any{ta, tb, tc},
 			Phases: []phase{{}, {Templates: []map[string]any{ta, tc}}, {Templates: []map[string]any{ta, tb, tc}}}},
